@@ -464,7 +464,9 @@ func (s *clientSocket) emitBuffered() {
 			sent, ok := ackIDs[*event.header.ID]
 			if ok && sent {
 				mu.Unlock()
-				return
+				// The handler has already acknowledged this event. Go on with the next one.
+				// (Returning here would leave the remaining events and the send buffer unflushed.)
+				continue
 			}
 			ackIDs[*event.header.ID] = true
 			mu.Unlock()
